@@ -370,5 +370,5 @@ def finalize(cases, results, tier, extras):
     ex = [r for r in results if str(r.get("id", "")).startswith("exhaustive")]
     return {"inconclusive": inc, "coverage": {"exhaustive": False,
             "exhaustive_part": "every operation sequence of length %s over 2 subjects x 2 sources x expiry {past,future} + reset/delete/clock advance, for Cache (all first operations) and Population" % (
-                cases[0]["depth"] if cases else "?"),
+                next((c["depth"] for c in cases if "depth" in c), "?")),
             "exhaustive_histories": sum(r.get("counters", {}).get("histories", 0) for r in ex)}}
